@@ -38,6 +38,8 @@ for tag,d in rows:
     if k in seen: continue
     seen.add(k)
     tri=TRIAGE.get((d['file'],d['old']),"NOT TRIAGED")
+    if tri=="NOT TRIAGED" and d['old'].startswith("if pending.len() > 1 && thread_count > 1"):
+        tri="equivalent: with exactly one pending job `split_and_push` computes a piece size of 0 and publishes nothing"
     out.append(f"| {d['file']}:{d['line']} | `{d['old'][:70]}` → `{d['new'][:70]}` | {', '.join(d['checks'])} | {tri} |")
 out+=["","## Mutants killed by the checks","","| file:line | mutation | verdicts |","|---|---|---|"]
 seen=set()
